@@ -49,6 +49,8 @@ structure TxnM where
   prewriteUnacked : Bool := false                    -- some prewrite attempt has no positive acknowledgement yet for its keys
   attemptedKeys : List Bytes := []                   -- keys of every prewrite attempt
   minCommits : List Nat := []
+  asyncAcks : Nat := 0                               -- acknowledged prewrites answered with min_commit_ts > 0 (async commit in effect)
+  plainAcks : Nat := 0                               -- acknowledged prewrites answered with min_commit_ts = 0
   commitPointMaybe : Bool := false                   -- a primary commit was sent and not definitely refused
   primaryCommitted : Option Nat := none
   commitCallTSO : Option Nat := none                 -- max ts issued when Commit was called
@@ -146,7 +148,10 @@ def checksOf (m : MState) : Ev → List (Bool × String)
       (t.attemptedKeys.all fun k => t.prewritten.any (·.1 == k), "rule1 commit before every prewrite was acknowledged"),
       (t.buffer.isEmpty || mutsAgree t.relaxLocks t.prewritten (expectedMuts t), "rule9 prewritten mutations differ from the buffered writes"),
       (match t.primary with | some p => prewrittenKeys.contains p | none => false, "rule8 primary is not one of the locked mutations"),
-      (hasPrimary || t.primaryCommitted.isSome, "rule2 secondary committed before the primary commit succeeded"),
+      -- ("unless async commit": once every prewrite was acknowledged with a min_commit_ts the transaction is committed
+      --  and the client commits primary and secondaries in the background in any order)
+      (hasPrimary || t.primaryCommitted.isSome || (t.asyncAcks > 0 && t.plainAcks == 0),
+        "rule2 secondary committed before the primary commit succeeded"),
       (match t.primaryCommitted with | some c => c == commitTS | none => true,
         "rule2 secondaries committed at a different commit ts than the primary") ]
   | .rollback client _fate startTS _keys =>
@@ -210,7 +215,9 @@ def applyEv (m : MState) : Ev → MState
       primary := some primary
       attemptedKeys := t.attemptedKeys ++ (muts.map (·.1)).filter (fun k => !t.attemptedKeys.contains k)
       prewritten := if acked then t.prewritten ++ muts.filter (fun x => !t.prewritten.contains x) else t.prewritten
-      minCommits := if acked && minResp > 0 then minResp :: t.minCommits else t.minCommits }
+      minCommits := if acked && minResp > 0 then minResp :: t.minCommits else t.minCommits
+      asyncAcks := if acked && minResp > 0 then t.asyncAcks + 1 else t.asyncAcks
+      plainAcks := if acked && minResp == 0 then t.plainAcks + 1 else t.plainAcks }
   | .commit client fate startTS commitTS keys ok definiteErr =>
     let t := m.get startTS client
     let hasPrimary := match t.primary with | some p => keys.contains p | none => false
